@@ -33,6 +33,7 @@
 #include <syslog.h>
 #include <stdbool.h>
 #include <sys/stat.h>
+#include <dirent.h>
 
 static int h_socket(int d, int t, int p);
 static int h_bind(int fd, const struct sockaddr *a, socklen_t l);
@@ -298,6 +299,23 @@ static int write_file(int dfd, const char *name, const unsigned char *c, size_t 
 	close(fd);
 	return 0;
 }
+static void wipe_dir(const char *base)
+{
+	char sub[96];
+	snprintf(sub, sizeof(sub), "%s/smtproutes.d", base);
+	DIR *d = opendir(sub);
+	if (d) {
+		struct dirent *e;
+		while ((e = readdir(d)) != NULL)
+			if (strcmp(e->d_name, ".") != 0 && strcmp(e->d_name, "..") != 0)
+				unlinkat(dirfd(d), e->d_name, 0);
+		closedir(d);
+		rmdir(sub);
+	}
+	snprintf(sub, sizeof(sub), "%s/smtproutes", base);
+	unlink(sub);
+	rmdir(base);
+}
 static void run_route(int nf, struct field *f)
 {
 	/* 04 <remhost> <dns> <flags routes> <file>... */
@@ -309,7 +327,9 @@ static void run_route(int nf, struct field *f)
 			if (f[j].p[0] == f[i].p[0] && memcmp(f[j].p + 1, f[i].p + 1, f[i].p[0]) == 0) { out_str("BADCASE"); return; }
 	}
 	char base[64];
-	snprintf(base, sizeof(base), "/tmp/mxh.%d", (int)getpid());
+	/* one scratch directory per harness run (the forked case runners share it, they run one after the other) */
+	snprintf(base, sizeof(base), "/tmp/mxh.%d", (int)getppid());
+	wipe_dir(base);		/* left-overs of a case that crashed */
 	mkdir(base, 0700);
 	int cfd = open(base, O_RDONLY | O_DIRECTORY);
 	if (cfd < 0) { out_str("HARNESS-ERROR"); return; }
@@ -348,16 +368,7 @@ static void run_route(int nf, struct field *f)
 		free(rh);
 	}
 	/* clean up */
-	if (dfd >= 0) {
-		for (int i = 4; i < nf; i++) {
-			char nm[300];
-			memcpy(nm, f[i].p + 1, f[i].p[0]); nm[f[i].p[0]] = 0;
-			unlinkat(dfd, nm, 0);
-		}
-	}
-	unlinkat(cfd, "smtproutes.d", AT_REMOVEDIR);
-	unlinkat(cfd, "smtproutes", 0);
-	rmdir(base);
+	wipe_dir(base);
 	for (int fd = 3; fd < 64; fd++) close(fd);	/* err_confn() leaves descriptors open (the real one exits) */
 }
 
